@@ -120,8 +120,8 @@ def posting_walk(ctx, cfg, profs_of, depth, tag, col):
                           "long": True, "bare": iterlib.pick_bare(ik + pname, ctx.seed, 3)})
     ctx.note("%s: %d lists x %d layout tables (%s), %d cursor-graph edges; depth %d" % (
         tag, len(model.indices), len(profiles), ", ".join(sorted(profiles)), model.edges, depth))
-    vs = ctx.run_cases(binary, "walk", cases, timeout_ms=120000, name="walk-" + tag)
-    col.absorb(vs, cases, model)
+    vs = ctx.run_cases(binary, "walk", cases, timeout_ms=300000, name="walk-" + tag)
+    col.absorb(vs, cases, model, binary=binary)
     for c in cases:
         ctx.distinct_cases.add((tag, iterlib.canon(c["idx"]), c["profile"]))
     return model, cases, binary
@@ -132,9 +132,9 @@ def run(ctx):
     model, cases, binary = posting_walk(ctx, ctx.pick("PostingAll8.cfg", "PostingAll10.cfg"), profiles_small, 3, "all", col)
     # the binding is real: falsify one expectation and the adapter must object
     probe = dict(cases[len(cases) // 2], id=0, corrupt=1)
-    pv = ctx.run_cases(binary, "walk", [probe], workers=1, name="selftest")
-    if pv[0].get("ok"):
-        raise Inconclusive("self-test: a falsified expectation was not noticed by the adapter")
+    pv = ctx.run_cases(binary, "walk", [probe], workers=1, name="selftest", timeout_ms=600000)
+    if pv[0].get("ok") or not isinstance(pv[0].get("obs"), list):
+        raise Inconclusive("self-test: a falsified expectation was not noticed by the adapter: %r" % (pv[0].get("key"),))
     ctx.note("self-test: falsified expectation rejected (%s)" % pv[0].get("key"))
     posting_walk(ctx, ctx.pick("PostingDense1.cfg", "PostingDense2.cfg"), profiles_long, 2, "dense", col)
     full = next(c for c in cases if len(c["idx"]["t"]) >= 7 and c["profile"] == "exact64")
